@@ -61,6 +61,42 @@ def builtin(run, st, name, args, ins):
         for i in range(n):
             run.store(st, Ptr(dst.obj, dst.path + (do + i,)), vals[i], ins.get("pos", ""))
         return run.mk_int(n, 64)
+    if name == "append":
+        dst, src = args[0], args[1]
+        if isinstance(src, tuple) and src and src[0] == "str":
+            raise Unsupported("append of a string")
+        nd, ns = dom.concrete(dst.len), dom.concrete(src.len)
+        do, so = dom.concrete(dst.off), dom.concrete(src.off)
+        if nd is None or ns is None or do is None or so is None:
+            raise Unsupported("append with symbolic lengths")
+        site = ins.get("pos", "")
+        fits = run.int_cmp("<=", run.mk_int(nd + ns, 64), dst.cap, True)
+        if fits is not True and fits is not False:
+            key = ("append", ins.get("reg"), st.block)
+            tr = st.decided.get(key)
+            if tr is None:
+                # the capacity decides whether the caller's backing array is written: both cases are explored
+                for pol in (True, False):
+                    s2 = st.fork()
+                    s2.pc -= 1
+                    s2.decided[key] = pol
+                    s2.assume(fits if pol else mk_not(fits))
+                    run.work.append(s2)
+                raise PathEnd()
+            del st.decided[key]
+            fits = tr
+        vals = [run.load(st, Ptr(src.obj, src.path + (so + i,))) for i in range(ns)]
+        if fits:
+            for i in range(ns):
+                run.store(st, Ptr(dst.obj, dst.path + (do + nd + i,)), vals[i], site)
+            return SliceV(dst.obj, dst.path, dst.off, run.mk_int(nd + ns, 64), dst.cap)
+        et = run.loc_type(dst.obj, dst.path + (do,)) if nd else run.loc_type(src.obj, src.path + (so,))
+        o = run.new_obj(et, "append", "alloc", lazy=True, oid=run.site_oid(st, "append", str(ins.get("reg"))))
+        for i in range(nd):
+            st.mem[(o, (i,))] = run.load(st, Ptr(dst.obj, dst.path + (do + i,)))
+        for i in range(ns):
+            st.mem[(o, (nd + i,))] = vals[i]
+        return SliceV(o, (), run.mk_int(0, 64), run.mk_int(nd + ns, 64), run.mk_int(nd + ns, 64))
     raise Unsupported("builtin %s" % name)
 
 
